@@ -84,7 +84,24 @@ class _Gen:
         if form == "tile":
             self.features.add("tile")
             body = self.stmts(1, 0, "g", False, False, False, None, "      ")
-            return ("  for (int g = 0; g < n; ++g; @tile(%d, @outer, @inner)) {\n" % I) + body + "  }\n"
+            tsize = str(I)
+            if I == 4 and r.random() < 0.3:
+                tsize = r.choice(["2 + 2", "2 * 2"])
+                self.features.add("tile-size-expression")
+            v = r.random()
+            if v < 0.5:
+                head = "for (int g = 0; g < n; ++g"
+            elif v < 0.65:
+                head = "for (int g = 0; g < n; g += %d" % r.choice([2, 3])
+                self.features.add("tile-stride")
+            elif v < 0.85:
+                head = "for (int g = n - 1; g >= 0; --g"
+                self.features.add("tile-down")
+            else:
+                head = "for (int g = n - 1; g >= 0; g -= 2"
+                self.features.add("tile-stride")
+                self.features.add("tile-down")
+            return ("  %s; @tile(%s, @outer, @inner)) {\n" % (head, tsize)) + body + "  }\n"
         if form == "up":
             out += "  for (int o = 0; o < n; o += %d; @outer) {\n" % I
             base = "o"
@@ -274,7 +291,7 @@ def reference(src):
         l = l.replace("@kernel void k(", 'extern "C" void kref(')
         l = l.replace("@restrict ", "").replace(" @dim(8, 8)", "").replace(" @simd_length(4)", "")
         l = l.replace("out0(g % 8, g / 8)", "out0[g % 8 + 8 * (g / 8)]")
-        l = re.sub(r";\s*@tile\(\d+, @outer, @inner\)\)", ")", l)
+        l = re.sub(r";\s*@tile\([^@]*, @outer, @inner\)\)", ")", l)
         l = re.sub(r";\s*@outer(\(\d\))?\)", ")", l)
         if re.search(r";\s*@inner(\(\d\))?\)", l):
             l = re.sub(r";\s*@inner(\(\d\))?\)", ")", l)
